@@ -56,13 +56,15 @@ var impWants = []impWant{
 	{dir: "formats/fastq", pkg: "fastq", funcs: []string{"Fastq.Write"}, join: true},
 	{dir: "formats/fastq", pkg: "fastqrd", funcs: []string{"reader.read", "reader.iter"}, errZ: true, join: true},
 	{dir: "formats/bed", pkg: "bed", funcs: []string{"BED.Write", "parseLine", "reader.read"}, join: true, errZ: true},
-	{dir: "formats/newick", pkg: "newick", funcs: []string{"quoted", "nameFromText", "nameToText", "Node.traverse"}, floatAs: "F"},
+	{dir: "formats/newick", pkg: "newick", funcs: []string{"quoted", "nameFromText", "nameToText", "Node.traverse", "Node.newick"}, floatAs: "F"},
 }
 
 type impFn struct {
 	name   string
 	fuel   bool
 	stream bool // takes and returns the stream state rd__
+	oracle bool // takes the float oracle o (strconv's parse / format tables)
+	buf    int  // index of a *bytes.Buffer / *strings.Builder parameter whose new value is the result (-1: none)
 }
 
 type opener struct{ open, close string }
@@ -98,6 +100,10 @@ type impTr struct {
 	stream   bool // the receiver is a reader over a *bufio.Reader: the stream state rd__ is threaded
 	label    string
 	streamTy string
+	oracle   bool
+	self     types.Object
+	selfFn   *impFn
+	bufName  string
 	recv     string // the reader object's record (fields other than the bufio one), returned with rd__
 	results  *types.Tuple
 	loopVars []map[types.Object]bool
@@ -161,7 +167,7 @@ func isBuilder(ty types.Type) bool {
 	if p, ok := ty.(*types.Pointer); ok {
 		ty = p.Elem()
 	}
-	return ty.String() == "strings.Builder"
+	return ty.String() == "strings.Builder" || ty.String() == "bytes.Buffer"
 }
 
 func (t *impTr) ty(ty types.Type) string {
@@ -636,6 +642,16 @@ func (t *impTr) binary(e *ast.BinaryExpr, pre *[]opener) string {
 		}
 		return "(" + r + ")"
 	}
+	if lb, ok := lt.Underlying().(*types.Basic); ok && lb.Info()&types.IsFloat != 0 && t.floatAs != "" {
+		if yv, ok := t.info.Types[e.Y]; ok && yv.Value != nil && constant.Sign(yv.Value) == 0 && (e.Op == token.EQL || e.Op == token.NEQ) {
+			x := t.ex(e.X, pre)
+			if e.Op == token.EQL {
+				return "(is_zeroF " + x + ")"
+			}
+			return "(negb (is_zeroF " + x + "))"
+		}
+		t.fail(e, "float operation other than a comparison with zero")
+	}
 	rt := t.typeOf(e.Y)
 	switch e.Op {
 	case token.SHL, token.SHR:
@@ -923,6 +939,9 @@ func (t *impTr) call(e *ast.CallExpr, pre *[]opener) string {
 			t.fuel = true
 			args = append(args, "fuel")
 		}
+		if fn.oracle {
+			args = append(args, "o")
+		}
 		if sel, ok := e.Fun.(*ast.SelectorExpr); ok {
 			if s, ok := t.info.Selections[sel]; ok && s.Kind() == types.MethodVal {
 				args = append(args, t.ex(sel.X, pre))
@@ -1028,6 +1047,20 @@ func (t *impTr) assigned(n ast.Node) ([]types.Object, int) {
 				}
 				if fn, ok := t.fns[o]; ok && fn.stream {
 					yields |= 2
+				}
+				if fn, ok := t.fns[o]; ok && fn.buf >= 0 {
+					idx := fn.buf
+					if sel, ok := s.Fun.(*ast.SelectorExpr); ok {
+						if sl, ok := t.info.Selections[sel]; ok && sl.Kind() == types.MethodVal {
+							idx--
+						}
+					}
+					if idx >= 0 && idx < len(s.Args) {
+						add(s.Args[idx])
+					}
+				}
+				if o.Pkg() != nil && o.Pkg().Path() == "fmt" && o.Name() == "Fprint" && len(s.Args) > 0 {
+					add(s.Args[0])
 				}
 				if o.Pkg() != nil {
 					switch o.Pkg().Path() + "." + o.Name() {
@@ -1289,6 +1322,35 @@ func (t *impTr) block(list []ast.Stmt, k string, lc *loopCtx) string {
 				t.store(call.Args[0], fmt.Sprintf("(go_sort %s %s)", less, x), &pre)
 				return wrapOpeners(pre, rest())
 			}
+		}
+		if o := t.calleeObj(call.Fun); o != nil && o.Pkg() != nil && o.Pkg().Path() == "fmt" && o.Name() == "Fprint" && isBuilder(t.typeOf(call.Args[0])) {
+			b := t.ex(call.Args[0], &pre)
+			parts := []string{b}
+			for _, a := range call.Args[1:] {
+				x := t.ex(a, &pre)
+				at := t.typeOf(a)
+				if bb, ok := at.Underlying().(*types.Basic); ok && bb.Info()&types.IsFloat != 0 && t.floatAs != "" {
+					parts = append(parts, "fmtF o "+x)
+				} else if ok && bb.Info()&types.IsString != 0 {
+					parts = append(parts, x)
+				} else {
+					t.fail(a, "unsupported operand of fmt.Fprint")
+				}
+			}
+			t.store(call.Args[0], "("+strings.Join(parts, " ++ ")+")", &pre)
+			return wrapOpeners(pre, rest())
+		}
+		if fn, ok := t.fns[t.calleeObj(call.Fun)]; ok && fn.buf >= 0 {
+			// the callee writes into the buffer passed to it: its result is the new buffer
+			v := t.ex(call, &pre)
+			idx := fn.buf
+			if sel, ok := call.Fun.(*ast.SelectorExpr); ok {
+				if s, ok := t.info.Selections[sel]; ok && s.Kind() == types.MethodVal {
+					idx-- // the receiver is parameter 0
+				}
+			}
+			t.store(call.Args[idx], v, &pre)
+			return wrapOpeners(pre, rest())
 		}
 		// a call for its effect only: evaluate it (it may panic)
 		t.ex(call, &pre)
@@ -1790,10 +1852,39 @@ func (t *impTr) function(fd *ast.FuncDecl, coqName string) *impFn {
 	var params []string
 	t.stream = false
 	t.recv = ""
+	t.bufName = ""
+	// pre-scan: recursion, float formatting
+	t.self = t.info.Defs[fd.Name]
+	t.oracle = false
+	recursive := false
+	ast.Inspect(fd.Body, func(n ast.Node) bool {
+		if c, ok := n.(*ast.CallExpr); ok {
+			o := t.calleeObj(c.Fun)
+			if o == t.self {
+				recursive = true
+			}
+			if o != nil && o.Pkg() != nil && o.Pkg().Path() == "fmt" && o.Name() == "Fprint" && t.floatAs != "" {
+				t.oracle = true
+			}
+			if fn, ok := t.fns[o]; ok && fn.oracle {
+				t.oracle = true
+			}
+		}
+		return true
+	})
+	t.selfFn = &impFn{name: coqName, fuel: recursive, oracle: t.oracle, buf: -1}
+	if recursive {
+		t.fuel = true
+		t.fns[t.self] = t.selfFn
+	}
 	addParam := func(n *ast.Ident) {
 		o := t.info.Defs[n]
 		if o.Type().String() == "io.Writer" {
 			return // the writer is the list of emitted chunks
+		}
+		if isBuilder(o.Type()) {
+			t.bufName = t.nameOf(o)
+			t.selfFn.buf = len(params)
 		}
 		if p, ok := o.Type().Underlying().(*types.Pointer); ok {
 			if st, ok := p.Elem().Underlying().(*types.Struct); ok {
@@ -1922,6 +2013,12 @@ func (t *impTr) function(fd *ast.FuncDecl, coqName string) *impFn {
 			}
 			return "Ret (" + v + ")"
 		}
+		if t.bufName != "" && sig.Results().Len() == 0 {
+			// a function that writes into its *bytes.Buffer parameter: the result is the buffer
+			end = "Ret " + t.bufName
+			t.retWrap = func(string) string { return "Ret " + t.bufName }
+			rt = "(list N)"
+		}
 		if t.stream {
 			inner := t.retWrap
 			t.retWrap = func(v string) string {
@@ -1939,12 +2036,21 @@ func (t *impTr) function(fd *ast.FuncDecl, coqName string) *impFn {
 		}
 		text = wrapOpeners(pre, t.block(body, end, nil))
 	}
-	fn := &impFn{name: coqName, fuel: t.fuel, stream: t.stream}
+	fn := t.selfFn
+	fn.fuel = t.fuel
+	fn.stream = t.stream
 	fuel := ""
 	if fn.fuel {
 		fuel = "(fuel : nat) "
 	}
-	fmt.Fprintf(t.out, "Definition %s %s%s : res unit %s :=\n  %s.\n\n", coqName, fuel, strings.Join(params, " "), rt, text)
+	if fn.oracle {
+		fuel += "(o : foracle) "
+	}
+	if recursive {
+		fmt.Fprintf(t.out, "Fixpoint %s %s%s {struct fuel} : res unit %s :=\n  match fuel with O => NoFuel | Datatypes.S fuel =>\n  %s\n  end.\n\n", coqName, fuel, strings.Join(params, " "), rt, text)
+	} else {
+		fmt.Fprintf(t.out, "Definition %s %s%s : res unit %s :=\n  %s.\n\n", coqName, fuel, strings.Join(params, " "), rt, text)
+	}
 	return fn
 }
 
